@@ -2,8 +2,9 @@ SPECIFICATION DSpec
 CONSTANTS
   W = 4
   Fixed = TRUE
+  FixedPred = TRUE
   MaxN = 5
-  MaxU = 12
+  MaxU = 10
   AllL = TRUE
 INVARIANTS Encoded Queried
 CHECK_DEADLOCK FALSE
